@@ -16,6 +16,7 @@ package c13
 import (
 	"encoding/json"
 	"fmt"
+	"os"
 	"sort"
 	"strings"
 	"sync"
@@ -171,6 +172,22 @@ type strEval struct {
 }
 
 func Run(r *core.Run) {
+	if r.Replay != "" {
+		data, err := os.ReadFile(r.Replay)
+		var rec struct {
+			Detail struct {
+				Case   gramCase `json:"case"`
+				Config config   `json:"config"`
+			} `json:"detail"`
+		}
+		if err != nil || json.Unmarshal(data, &rec) != nil {
+			r.Infra("cannot read replay file %s: %v", r.Replay, err)
+			return
+		}
+		c := rec.Detail.Case
+		evalStrings(r, map[string]*gramCase{"k": &c}, []string{"k"}, []config{rec.Detail.Config}, nil)
+		return
+	}
 	r.Set("rule", "strings are ALL terminal strings (<= 14 tokens) derivable in the focused sub-grammars of spec/JsGrammar.tla, enumerated exhaustively by TLC (state = sentential form, action = production at the leftmost non-terminal); a string is non-trivial iff its derivation uses >= 1 production marked rare (line terminator in an ASI-sensitive place, regexp/division ambiguity, contextual keyword as identifier, cover-grammar refinement, Annex B form, separator/escape form, class-element modifier/name combination); distinct = distinct token sequences")
 	r.Assume("validity of an input for a goal = V8 (vm.Script / vm.SourceTextModule, compile only) AND acorn 8.16 (ecmaVersion latest) both accept it; strings on which they disagree carry no acceptance requirement")
 	r.Assume("script goal = no output format; module goal = format esm; clause 'output is valid for the requested kind' is applied to inputs that are valid for that goal; for inputs that are NOT valid for the goal but that esbuild accepts, the output must be valid for at least one goal")
@@ -248,7 +265,11 @@ func Run(r *core.Run) {
 		return
 	}
 
-	// 2. esbuild + reference parsers
+	evalStrings(r, byText, order, cfgs, allProds)
+}
+
+// 2. esbuild + reference parsers, 3. verdicts
+func evalStrings(r *core.Run, byText map[string]*gramCase, order []string, cfgs []config, allProds map[string]map[string]bool) {
 	p := newParser(r)
 	evals := make([]strEval, len(order))
 	core.Parallel(len(order), 8, func(i int) {
@@ -347,7 +368,17 @@ func Run(r *core.Run) {
 				alt := &p.res[o.outAlt]
 				if inValid || !(alt.Acorn && alt.V8) {
 					key["check"] = "output-valid"
-					key["output_error"] = out.VErr
+					// signature of the failure: V8's message for the script goal, or for the module goal when the
+					// text has import/export (or is only invalid as a module)
+					errS, errM := out.VErr, alt.VErr
+					if cf.Goal == "module" {
+						errS, errM = alt.VErr, out.VErr
+					}
+					sig := errS
+					if errS == "" || strings.HasPrefix(errS, "Cannot use import statement") || strings.Contains(errS, "'export'") {
+						sig = errM
+					}
+					key["output_error"] = sig
 					detail["output_acorn_error"], detail["output_v8_error"] = out.AErr, out.VErr
 					r.Violation(key, fmt.Sprintf("esbuild accepted %q but its output is not a valid %s: %q (acorn: %s; v8: %s)", ev.src, cf.Goal, o.code, out.AErr, out.VErr), detail)
 					continue
@@ -395,7 +426,7 @@ func Run(r *core.Run) {
 	r.Set("productions_total", total)
 	r.Set("productions_covered", covered)
 	r.Set("productions_uncovered", uncovered)
-	if covered < total {
+	if allProds != nil && covered < total {
 		r.Infra("spec non-vacuity: %d productions never used in an exported string: %v", total-covered, uncovered)
 	}
 }
